@@ -199,6 +199,36 @@ def fam_manager(rng, pid, count, fills=(False,), has=(False,), lifes=(None,), he
     return out
 
 
+# days on which the zone changes its offset (the skipped / repeated local hour is around 02:00)
+TRANSITIONS = {"America/New_York": ["2024-03-10", "2024-11-03"], "Europe/London": ["2024-03-31", "2024-10-27"],
+               "Australia/Lord_Howe": ["2024-04-07", "2024-10-06"], "Pacific/Chatham": ["2024-04-07", "2024-09-29"],
+               "America/St_Johns": ["2024-03-10", "2024-11-03"]}
+
+
+def fam_transitions(rng, pid, count):
+    """streams that run through the local hours a DST zone skips or repeats, under that zone"""
+    out = []
+    zones = list(TRANSITIONS)
+    for t in range(count):
+        tz = zones[t % len(zones)]
+        day = rng.choice(TRANSITIONS[tz])
+        tf = rng.choice(["T1", "T5", "T15", "T30", "H1", "H2", "H4", "S30", "T10", "D1"])
+        from streams import tf_seconds
+
+        secs = tf_seconds(tf)
+        n = rng.randint(14, 24)
+        spacing = max(180, min(secs // rng.choice([1, 2, 3]), 1800))
+        start = rng.choice([0, 1800, 3600, 4500, 5400, 6600])
+        kind = rng.choice(["HLA", "SMA", "EMA", "OBV"])
+        cfg = rand_cfg(rng, kind, tf=tf, fill=rng.random() < 0.3)
+        st = make_stream(rng, n, rng.choice(["mixed", "walk"]), tf=tf, regular=spacing, t0=start,
+                         start_on=rng.random() < 0.5)
+        pre, chunks = compositions(rng, n, (0, 1, 2, n), 4)
+        out.append({"id": f"{pid}/dst/{tz}/{day}/{tf}/{t}", "fam": "manager", "obj": "ind", "inds": [cfg],
+                    "stream": st, "prog": prog_for(pre, chunks), "twins": [], "tz": tz, "base": day})
+    return out
+
+
 TZS = ["UTC", "Asia/Kolkata", "Asia/Kathmandu", "America/New_York", "Europe/London",
        "Australia/Lord_Howe", "Pacific/Chatham", "America/St_Johns"]
 
@@ -241,7 +271,8 @@ def scenarios(pid, tier, rng):
                 + fam_manager(rng, pid, k(160, 1000), lifes=(6, 8, 12, 20), twins=("untrimmed",),
                               kinds=("SMA", "EMA", "RSI", "STOCH", "ATR", "MACD", "BBANDS", "OBV"), tag="b"))
     if pid == "C18":
-        return fam_manager(rng, pid, k(320, 2000), tzs=TZS[1:], fills=(False, True), hexshare=0.15)
+        return (fam_manager(rng, pid, k(240, 1600), tzs=TZS[1:], fills=(False, True), hexshare=0.15)
+                + fam_transitions(rng, pid, k(100, 600)))
     if pid == "C16":
         return (fam_movement(rng, pid, k(120, 800)) + fam_patterns(rng, pid, k(60, 400))
                 + fam_amorph(rng, pid, k(60, 400)))
@@ -649,7 +680,7 @@ def _calls(rng, n, fns, idxs, lens, per=2):
                 a, b = ("a", "b") if rng.random() < 0.7 else ("b", "a")
                 if fn in PATS:
                     a = b = ""
-                    L = rng.choice([None, None, 1, 2, 3])
+                    L = rng.choice(lens if lens != [None] else [None, None, 1, 2, 3])
                 elif fn in ("above", "below", "positive", "negative"):
                     L = None
                 variants = ["at", "neg", "trunc"] + (["default"] if i == n - 1 else [])
@@ -740,23 +771,178 @@ def pattern_case(rng, name, witness):
     return prices, len(hist)
 
 
+def _avg(vals, length):
+    return sum(vals) / length
+
+
+def uneven_case(rng, name, witness):
+    """like pattern_case, but over a history whose candle ranges and bodies vary widely (spikes, very
+    quiet bars), with the candidate placed relative to the thresholds that history actually gives:
+    each clause is met with a margin of at least 2x, or exactly one is missed by at least 2x"""
+    k = rng.randint(11, 14)
+    hist = []
+    lvl = 40.0
+    # half of the cases: a quiet history with spikes exactly at the edges of the averaging windows
+    # (5 and 10 candles back), so that a window shifted by one candle gives a different threshold
+    edges = rng.random() < 0.5
+    spikes = set(rng.sample([k - 10, k - 9, k - 5, k - 4, k - 1], rng.randint(1, 2))) if edges else set()
+    for i in range(k):
+        rngsz = rng.choice([1.0, 2.0, 4.0, 8.0, 16.0])
+        if edges:
+            rngsz = 40.0 if i in spikes else rng.choice([1.0, 2.0])
+        body = rngsz * rng.choice([0.25, 0.5])
+        up = rng.random() < 0.5
+        o = lvl
+        c = lvl + body if up else lvl - body
+        h = max(o, c) + (rngsz - body) / 2
+        l = min(o, c) - (rngsz - body) / 2
+        hist.append((o, h, l, c, 5))
+    n = len(hist)
+    hl = [h - l for o, h, l, c, v in hist]
+    rb = [abs(o - c) for o, h, l, c, v in hist]
+    po, ph, pl, pc, _ = hist[-1]
+    which = None if witness else rng.randrange(4)
+    # thresholds of the documented formulas for a candidate at position n (windows include it
+    # where the documentation says so; estimated without the candidate, margins absorb the rest)
+    near = 0.2 * _avg(hl[-5:], 5)
+    body_avg = _avg(rb[-9:], 10)
+    if name == "hammer":
+        body = min(0.5, body_avg / 4) if which != 0 else 4 * max(body_avg, 1.0) + 4
+        lower = 6 * max(body, 1.0) + rng.choice([0, 10, 30, 60]) if which != 1 else body / 4
+        upper = 0.0 if which != 2 else 3 * max(_avg(hl[-9:], 10) * 0.1, 0.5) + 2
+        lo_body = pl + (near * 0.4 if which != 3 else near * 2.5 + 0.5)
+        o, c = lo_body, lo_body + body
+        cand = (o, c + upper, o - lower, c, 5)
+    elif name == "inv_hammer":
+        body = min(0.5, body_avg / 4) if which != 0 else 4 * max(body_avg, 1.0) + 4
+        upper = 6 * max(body, 1.0) + rng.choice([0, 10, 30]) if which != 1 else body / 4
+        lower = 0.0 if which != 2 else 3 * max(_avg(hl[-9:], 10) * 0.1, 0.5) + 2
+        hi_body = min(po, pc) - (1.0 if which != 3 else -(abs(po - pc) + 2.0))
+        c, o = hi_body, hi_body - body
+        cand = (o, c + upper, o - lower, c, 5)
+    elif name == "doji":
+        thr = 0.1 * _avg(hl[-9:], 10)
+        body = thr / 4 if witness else thr * 3 + 0.5
+        o = lvl
+        c = o + body
+        cand = (o, c + 1, o - 1, c, 5)
+    else:  # dojistar
+        long_prev = which != 0
+        pb = (3 * max(_avg(rb[-10:-1], 10), 0.5) + 2) if long_prev else max(_avg(rb[-10:-1], 10), 0.5) / 4
+        prev = (lvl, lvl + pb + 0.5, lvl - 0.5, lvl + pb, 5)
+        hist[-1] = prev
+        thr = 0.1 * _avg(hl[-9:], 10)
+        body = thr / 4 if which != 1 else thr * 3 + 0.5
+        gap = 1.0 if which != 2 else -(pb / 2)
+        o = prev[3] + gap
+        c = o + body
+        cand = (o, c + 0.5, o - 0.5, c, 5)
+    tail = _neutral(rng.randint(0, 2), lvl=cand[3])
+    return hist + [cand] + tail, len(hist)
+
+
+def _hl_avg(pr, length, idx):
+    lo = max(0, idx + 1 - length)
+    return sum(pr[i][1] - pr[i][2] for i in range(lo, idx + 1)) / length
+
+
+def _rb_avg(pr, length, idx):
+    lo = max(0, idx + 1 - length)
+    return sum(abs(pr[i][0] - pr[i][3]) for i in range(lo, idx + 1)) / length
+
+
+def edge_case(rng, name):
+    """a quiet history with ONE extreme candle sitting exactly at the edge of an averaging window,
+    and a candidate whose deciding quantity lies between the threshold of the documented window
+    and the threshold of that window shifted by one candle (geometric mean of the two): the verdict
+    then tells which window was used.  Every other clause is met with a wide margin."""
+    k = rng.randint(12, 14)
+    lvl = 50.0
+    quiet = lambda i: ((lvl, lvl + 1.5, lvl - 0.5, lvl + 1.0, 5) if i % 2 == 0 else (lvl + 1.0, lvl + 1.5, lvl - 0.5, lvl, 5))  # noqa: E731
+    spike = (lvl, lvl + 40.0, lvl - 40.0, lvl + 30.0, 5)
+    hist = [quiet(i) for i in range(k)]
+    n = k                       # position of the candidate
+    if name == "hammer":
+        # clause 4: min(o,c) <= prev.low + 0.2 * avg range of candles n-5..n-1
+        pos = rng.choice([n - 6, n - 5])      # just outside / just inside the documented window
+        hist[pos] = spike
+        t_doc = 0.2 * _hl_avg(hist, 5, n - 1)
+        body, lower = 0.25, rng.choice([3.0, 60.0])
+        pl = hist[-1][2]
+        # the window ending at the candidate itself would contain its own range instead
+        cand0 = (0, 0, -lower, body, 5)
+        t_alt = 0.2 * (_hl_avg(hist + [(0, body, -lower, body, 5)], 5, n))
+        d = (t_doc * t_alt) ** 0.5 if abs(t_doc - t_alt) > 0.2 else t_doc * rng.choice([0.4, 2.5])
+        d = round(d, 2)          # short decimals stay exact rationals for the specification
+        o = round(pl + d, 2)
+        c = o + body
+        cand = (o, c, o - lower, c, 5)
+    elif name == "doji":
+        # body < 0.1 * avg range of candles n-9..n
+        pos = rng.choice([n - 10, n - 9])
+        hist[pos] = spike
+        cand_rng = 2.0
+        t_doc = 0.1 * (_hl_avg(hist + [(0, 1, -1, 0, 5)], 10, n))
+        t_alt = 0.1 * (_hl_avg(hist, 10, n - 1))
+        body = (t_doc * t_alt) ** 0.5 if abs(t_doc - t_alt) > 0.05 else t_doc * rng.choice([0.4, 2.5])
+        body = round(min(body, 1.9), 3)
+        o = lvl
+        c = o + body
+        cand = (o, o + 1.0 + body, o - 1.0, c, 5) if body < 1.0 else (o, c, c - 2.0, c, 5)
+    else:   # dojistar: previous body > avg body of candles n-10..n-1
+        pos = rng.choice([n - 11, n - 10]) if k >= 13 else n - 10
+        hist[pos] = spike
+        t_doc = _rb_avg(hist, 10, n - 1)
+        t_alt = _rb_avg(hist, 10, n - 2)
+        pb = max((t_doc * t_alt) ** 0.5, 0.3) if abs(t_doc - t_alt) > 0.3 else t_doc * rng.choice([0.4, 2.5])
+        pb = round(pb, 2)
+        prev = (lvl, lvl + pb + 0.25, lvl - 0.25, lvl + pb, 5)
+        hist[-1] = prev
+        o = prev[3] + 1.0
+        cand = (o, o + 0.5, o - 0.5, o + 0.01, 5)
+    tail = _neutral(rng.randint(0, 1), lvl=cand[3])
+    return hist + [cand] + tail, len(hist)
+
+
+def multi_pattern_series(rng):
+    """a longer series carrying several pattern candles, for lookbacks that reach past them"""
+    prices = _neutral(11)
+    marks = []
+    for name in rng.sample(list(PATS), rng.randint(2, 4)):
+        extra, at = pattern_case(rng, name, witness=True)
+        marks.append(len(prices))
+        prices = prices + [extra[at]] + _neutral(rng.randint(1, 2), lvl=extra[at][3])
+    return prices
+
+
 def fam_patterns(rng, pid, count):
     out = []
     for t in range(count):
-        if t % 3 == 2:
+        looks = [None, None, 1, 2, 3]
+        if t % 5 == 2:
             n = rng.randint(11, 16)
             stream = make_stream(rng, n, rng.choice(["walk", "mixed", "decimal"]))
             focus = list(range(8, n))
+        elif t % 5 == 4:
+            prices = multi_pattern_series(rng)
+            stream = [(i * 60,) + p for i, p in enumerate(prices)]
+            n = len(stream)
+            focus = sorted(rng.sample(range(n), min(n, 9)))
+            looks = [None, 2, 5, 11, 13, 15, 20, 40]
         else:
             name = PATS[t % len(PATS)]
-            prices, at = pattern_case(rng, name, witness=rng.random() < 0.5)
+            if t % 3 == 0 and name != "inv_hammer":
+                prices, at = edge_case(rng, name)
+            else:
+                maker = uneven_case if t % 2 == 0 else pattern_case
+                prices, at = maker(rng, name, witness=rng.random() < 0.5)
             stream = [(i * 60,) + p for i, p in enumerate(prices)]
             n = len(stream)
             focus = list(range(max(8, at - 1), n))
         readings = [{} for _ in range(n)]
         mul, add = rng.choice([(1, 0), (1, 0), (2, 0), (10, 0), (0.5, 0), (1, 100), (1, 1)])
         stream, readings = _transform(stream, readings, mul, add)
-        rd = _calls(rng, n, PATS, focus, [None], per=2)
+        rd = _calls(rng, n, PATS, focus, looks, per=2)
         rd += [("geo", i) for i in focus]
         out.append({"id": f"{pid}/pattern/{t}", "fam": "analysis", "obj": "list", "inds": [], "stream": stream,
                     "readings": readings, "prog": [("new", n), ("reads", rd)], "twins": [],
